@@ -987,3 +987,13 @@ def it_for_each(ex, args):
         if p is None:
             return UNIT
         ex.call_value(f, [p[0]])
+
+
+@intrinsic('Fn::call', 'FnMut::call_mut', 'FnOnce::call_once')
+def fn_call(ex, args):
+    """explicit closure / fn-item call: (callee, (args...)) -- the argument tuple is a Python tuple"""
+    f = args[0]
+    a = ex.deref(args[1]) if len(args) > 1 else ()
+    if not isinstance(a, tuple):
+        a = (a,)
+    return ex.call_value(f, list(a))
